@@ -287,10 +287,6 @@ func runC31(c *fw.Ctx) {
 	sigma := []string{"a", "\r", "\n", "\x00", "\x01", "\x7f", "\x1a"}
 	maxLen := c.Pick(5, 6)
 	var ins []c31Input
-	for _, s := range fw.Strings(sigma, maxLen) {
-		ins = append(ins, c31Input{"", s})
-	}
-	nEnum := len(ins)
 	// threshold family: printable>>7 >= nonprintable
 	for _, pk := range [][2]int{{127, 1}, {128, 1}, {129, 1}, {255, 2}, {256, 2}, {257, 2}, {383, 3}, {384, 3}} {
 		for _, pos := range []string{"first", "middle", "last"} {
@@ -320,12 +316,17 @@ func runC31(c *fw.Ctx) {
 			ins = append(ins, c31Input{fmt.Sprintf("eol-at-%d+%q", off, eol), strings.Repeat("a", off) + eol + "b" + eol + strings.Repeat("c", 40000) + eol})
 		}
 	}
+	nFam := len(ins) // the families come first so that a run cut short still covers them
+	for _, s := range fw.Strings(sigma, maxLen) {
+		ins = append(ins, c31Input{"", s})
+	}
+	nEnum := len(ins) - nFam
 	const batch = 256
 	nb := (len(ins) + batch - 1) / batch
 	c.Bound("alphabet", []string{"a", "CR", "LF", "NUL", "0x01", "0x7f", "0x1a"})
 	c.Bound("max_len", maxLen)
 	c.Bound("enumerated_strings", nEnum)
-	c.Bound("family_strings", len(ins)-nEnum)
+	c.Bound("family_strings", nFam)
 	c.Bound("autocrlf", c31Modes)
 	c.Bound("batch_size", batch)
 	c.SetRule("all strings up to max_len over {a,CR,LF,NUL,0x01,0x7f,0x1a} + binary-threshold, NUL-near-8000 and buffer-boundary families x autocrlf {true,input,false}; per string three observations against real git in real repositories: blob stored by Worktree.AddWithOptions vs `git hash-object --stdin-paths` (same config), bytes written by Reset(Hard) vs `git reset --hard`, and blob stored when the checked-out file is re-added vs the original blob (demanded only where git itself round-trips); non-trivial = the string contains CR or LF; distinct counts (mode, line-ending/binary shape of the string, git's transformation on add, on checkout)")
@@ -342,6 +343,9 @@ func runC31(c *fw.Ctx) {
 	noRT := 0
 	c.ParDo(nb*len(c31Modes), 0, func(j int) {
 		b, mode := j/len(c31Modes), j%len(c31Modes)
+		if b > 0 { // batch 0 (the families) first, the rest spread over the space
+			b = 1 + hSpread(b-1, nb-1)
+		}
 		lo, hi := b*batch, (b+1)*batch
 		if hi > len(ins) {
 			hi = len(ins)
